@@ -281,8 +281,14 @@ type outcome struct {
 
 // runChain executes one chain on a fresh runtime and judges it against the model.
 func runChain(c *Chain) (fails []failure, out outcome) {
+	fails, out, _ = runOn(nil, c)
+	return
+}
+
+// runOn executes one chain on en (nil: a fresh runtime). It returns the runtime if it may be used for the
+// next case (the case passed, the runtime is idle and the probe program ran normally).
+func runOn(en *env, c *Chain) (fails []failure, out outcome, reuse *env) {
 	exp := predict(c)
-	var en *env
 	var obs hostObs
 	func() {
 		defer func() {
@@ -294,12 +300,15 @@ func runChain(c *Chain) (fails []failure, out outcome) {
 				fails = append(fails, failure{"setup-panic|" + panicClass(x), fmt.Sprintf("Go panic while the chain was being built: %v", x)})
 			}
 		}()
-		en = newEnv(c)
+		if en == nil {
+			en = newEnv()
+		}
+		en.reset(c)
 		en.build()
 		obs = en.hostCall()
 	}()
 	if len(fails) > 0 {
-		return fails, outcome{key: "setup-failure"}
+		return fails, outcome{key: "setup-failure"}, nil
 	}
 	add := func(kind, format string, args ...interface{}) {
 		fails = append(fails, failure{kind, fmt.Sprintf(format, args...)})
@@ -307,7 +316,7 @@ func runChain(c *Chain) (fails []failure, out outcome) {
 	m := &matcher{en: en, bound: map[int]goja.Value{}}
 	if en.budget {
 		add("nontermination", "the case exceeded %d VM instructions", stepBudget)
-		return fails, outcome{key: "budget"}
+		return fails, outcome{key: "budget"}, nil
 	}
 
 	// 1. the event log: what every catch/finally block observed, in order
@@ -446,6 +455,8 @@ func runChain(c *Chain) (fails []failure, out outcome) {
 			add("idle|"+idleNames(d), "the runtime is not idle after the host call returned: %s", d)
 		} else if d := en.probe(); d != "" {
 			add("probe", "%s", d)
+		} else if len(fails) == 0 {
+			reuse = en
 		}
 	}
 	return
